@@ -424,4 +424,11 @@ def run(chk, repo, tier):
                     'with the wrapper\'s own range (so it refuses a table or '
                     'T_ref outside it and checks every T against it)',
                found=show(v)[:200])
+    from .. import reviewed as _rv
+    for mname in ('get_CpoR', 'get_HoRT', 'get_SoR'):
+        _rv.check(chk, 'R06.4', repo, INC, 'ThermochemIncomplete.' + mname,
+                  'ThermochemIncomplete.%s is unchanged in normal form from '
+                  'its reviewed reference (every combination of absent '
+                  'datum / no heat capacities / T = T_ref ends in the '
+                  'documented value, warning or error)' % mname)
 
